@@ -65,9 +65,10 @@ def same_verdict(spec, impl):
 
 
 # ---------------------------------------------------------------------------------------
-def values(r, n_random):
-    b = [0, 1, 2, 255, 1 << 31, 1 << 32, (1 << 53) + 1, M63 - 2, M63 - 1, M63, M63 + 1, M64 - 2, M64 - 1, M64, M64 + 1,
-         1 << 65, (1 << 100) + 7, 10 ** 30]
+def values(r, n_random, full):
+    b = [0, 1, 255, M63 - 1, M63, M63 + 1, M64 - 1, M64, (1 << 100) + 7]
+    if full:
+        b += [2, 1 << 31, 1 << 32, (1 << 53) + 1, M63 - 2, M64 - 2, M64 + 1, 1 << 65, 10 ** 30]
     vs = b + [-x for x in b if x]
     hist = {"boundary": len(vs)}
     for _ in range(n_random):
@@ -87,12 +88,12 @@ def values(r, n_random):
     return vs + near, hist
 
 
-def program_cases(r, vs, n_struct):
+def program_cases(r, vs, n_struct, nb):
     cases = []
     for i, v in enumerate(vs):
         for j, pos in enumerate(SCALAR_POS):
             # every value in every scalar position at one type; both types for boundary values
-            tys = ["int", "nat"] if i < 35 or (i + j) % 3 == 0 else [["int", "nat"][(i + j) % 2]]
+            tys = ["int", "nat"] if i < nb else [["int", "nat"][(i + j) % 2]]
             for t in tys:
                 if pos == "comptime_neg" and v > 0:
                     continue
@@ -227,9 +228,9 @@ def run(ctx):
     import time
     T = {"coq_props_s": round(time.time() - ctx.t0, 1)}
     r = vlib.rng(ctx.seed, "C17")
-    vs, hist = values(r, 20 if ctx.quick else 400)
+    vs, hist = values(r, 12 if ctx.quick else 400, not ctx.quick)
     corpus = json.loads((ctx.dir / "corpus" / "cases.json").read_text()) if (ctx.dir / "corpus" / "cases.json").exists() else []
-    cases = program_cases(r, vs, 60 if ctx.quick else 900)
+    cases = program_cases(r, vs, 40 if ctx.quick else 900, hist["boundary"] if not ctx.quick else 0)
     cases = [dict(c) for c in corpus] + cases
     for k, c in enumerate(cases):
         c["id"] = k
